@@ -44,6 +44,11 @@ def main():
             os.remove(demo_dst)
             rc2, out2 = sh("(go test -vet=off -count=1 -timeout 25m . ./actor/ ./open_game_manager/ ./seat_manager/ ; go test -vet=off -count=1 -timeout 10m -run 'TestTableGame_Flop_Settlement$' ./testcases/) 2>&1 | grep '^ok\\|^FAIL\\|^---\\|^panic' | tail -12", cwd=wt)
             suite_ok = "FAIL" not in out2 and "panic" not in out2
+            if not suite_ok and "FAIL\tgithub.com/weedbox/pokertable/actor" in out2 and out2.count("FAIL\t") == 1:
+                # TestActor_* occasionally dies with "negative WaitGroup counter" on the unchanged tree too: retry that package
+                rc3, out3 = sh("go test -vet=off -count=1 -timeout 25m ./actor/ 2>&1 | grep '^ok\\|^FAIL\\|^panic' | tail -3", cwd=wt)
+                out2 += "\nretry actor: " + out3
+                suite_ok = "FAIL" not in out3 and "panic" not in out3
             meta["ran"].append({"cmd": "the 51 baseline tests with the change (packages ., actor, open_game_manager, seat_manager; testcases/TestTableGame_Flop_Settlement)", "passes": suite_ok, "tail": out2[-600:]})
         print("demo clean passes:", clean_ok, "| demo with change fails:", mut_fails, "| suite with change passes:", suite_ok)
     finally:
